@@ -150,6 +150,7 @@ pub fn explore(scn: &dyn Scenario, b: Bounds, stop_at_first: bool) -> Explored {
     }
     ex.sample = Some(format!("default schedule: {} | {}", a.trace.join(" ; "), va.summary));
 
+    let only = std::env::var("VH_PROP").ok().filter(|p| !p.is_empty());
     let mut prefix: Vec<usize> = vec![];
     let mut sigs: Vec<u64> = vec![];
     loop {
@@ -166,7 +167,12 @@ pub fn explore(scn: &dyn Scenario, b: Bounds, stop_at_first: bool) -> Explored {
             ex.error = Some(format!("{}: replay divergence at prefix {:?}: {}", scn.name(), prefix, d));
             return ex;
         }
-        let v = out.verdict.unwrap();
+        let mut v = out.verdict.unwrap();
+        if let Some(p) = &only {
+            // deciding one property: an execution that contradicts only other properties does not end
+            // the search (it is reported by those properties' own checks)
+            v.breaches.retain(|b| b.props.iter().any(|q| q == p));
+        }
         ex.outcomes.insert(v.outcome);
         for f in &v.flags {
             ex.flags.insert(f);
